@@ -1362,3 +1362,15 @@ def twin_id_cases(budget, rng):
                      "reqs": [mk_req(1, 3, dict(spec), id=mine, form=("dict", "model")[k % 2]), mk_req(2, 4, {"mode": "200"}, id="after")]}
                 out.append(finish(c))
     return out
+
+
+def silent_longer_than_timeout(case):
+    """the scripted event stream stays silent for longer than the configured timeout somewhere
+    (between the GET and the first chunk, or between two chunks)"""
+    plan, close = chunk_plan(case)
+    T = case.get("T", T_DEFAULT)
+    ticks = [case.get("conn", {}).get("at", 0)] + [t for t, _ in plan]
+    gaps = [b - a for a, b in zip(ticks, ticks[1:])]
+    last = ticks[-1]
+    reqs_after = [r for r in case.get("reqs", []) if "ed" in r and r["at"] + r["ed"] - last > T]
+    return any(g > T for g in gaps) or bool(reqs_after)
